@@ -113,16 +113,7 @@ def evaluate(prop, rules, tier, root=None, explain=False):
                 print(tb)
         if len(ctx.instances) == n0:
             ctx.unrecognised("-", "-", "no-instances", "rule produced no instance (vacuous)", rid)
-    # a VIOLATED verdict inside a function whose locals were renamed back *heuristically* by the normaliser is
-    # not trusted as a violation: the rename may have mis-paired names.  It becomes UNRECOGNISED (exit 2).
-    norm_log = {}
-    for rel, m in repo._modules.items():
-        if m.normalised:
-            norm_log[rel] = m.normalised
-        for inst in ctx.instances:
-            if inst.verdict == VIOLATED and inst.file == rel and any(inst.qual == f or inst.qual.startswith(f + ".") for f in m.flagged):
-                inst.verdict = UNRECOGNISED
-                inst.detail = f"violation reported inside a function whose locals were re-paired heuristically with the reference inventory; found={inst.detail!r}"[:400]
+    norm_log = {rel: m.normalised for rel, m in repo._modules.items() if m.normalised}
     if norm_log:
         ctx.info["normalised"] = norm_log
     return ctx
